@@ -199,7 +199,22 @@ def run(ctx):
                          ("slice", list(range(n))[1:], lambda t: t[1:]), ("reversed", list(range(n))[::-1], lambda t: t[::-1])]
                 perm = r.sample(range(n), n)
                 sels.append(("fancy", perm + perm[:1], lambda t: t[np.array(perm + perm[:1])]))
-                # selections of selections (concatenations of BAM selections are C04's clause and are driven there)
+                # reordered: the rows of an adjacent run permuted with its first and last row left in place; a rotation and a block cut out,
+                # expressed as a concatenation of two plain slices of the table
+                if n >= 4:
+                    a_ = r.randint(0, n - 4)
+                    b_ = r.randint(a_ + 3, n - 1)
+                    inner = list(range(a_ + 1, b_))
+                    r.shuffle(inner)
+                    run_ = [a_] + inner + [b_]
+                    sels.append(("fancy-inner-permutation", run_, lambda t: t[np.array(run_)]))
+                if n >= 2:
+                    k_ = r.randint(1, n - 1)
+                    sels.append(("rotation", list(range(k_, n)) + list(range(k_)), lambda t: np.concatenate([t[k_:], t[:k_]])))
+                    c_ = r.randint(0, n - 1)
+                    d_ = r.randint(c_ + 1, n)
+                    sels.append(("block-cut-out", list(range(c_)) + list(range(d_, n)), lambda t: np.concatenate([t[:c_], t[d_:]])))
+                # selections of selections
                 evens = [i for i in range(n) if i % 2 == 0]
                 sels.append(("nested", evens[::-1][:max(1, len(evens) - 1)], lambda t: t[np.arange(n) % 2 == 0][::-1][:max(1, len(evens) - 1)]))
                 # a filter that selects nothing still gives a BAM (header, reference list, no records)
